@@ -161,11 +161,19 @@ var readOps = []readOp{
 		err2 := d.Merge(map[string]interface{}{"w": c, "l": []interface{}{c}}, append([]ucfg.Option{ucfg.AppendValues}, o...)...)
 		var m map[string]interface{}
 		err3 := d.Unpack(&m, o...)
+		// ... into a destination that has lists of its own, under the list policies (the options of the reader may
+		// name fields)
+		d3 := ucfg.MustNewFrom(map[string]interface{}{"k": []interface{}{"d0", "d1"}, "l": []interface{}{"dl"}, "m": map[string]interface{}{"q": map[string]interface{}{"l": []int{9}}}})
+		err6 := d3.Merge(c, append([]ucfg.Option{ucfg.PrependValues}, o...)...)
+		err7 := d3.Merge(c, append([]ucfg.Option{ucfg.AppendValues}, o...)...)
+		var m3 map[string]interface{}
+		err8 := d3.Unpack(&m3, o...)
+		defer func() { _, _, _ = err6, err7, err8 }()
 		// ... and with options that concern the destination only (provenance, policies)
 		d2 := ucfg.New()
 		err4 := d2.Merge(c, append([]ucfg.Option{ucfg.MetaData(ucfg.Meta{Source: "merge.yml"}), ucfg.PrependValues}, o...)...)
 		err5 := d2.Merge(c, append([]ucfg.Option{ucfg.MetaData(ucfg.Meta{Source: "again.yml"}), ucfg.ReplaceValues}, o...)...)
-		return fmt.Sprint(err, err2, show(m, err3), err4, err5)
+		return fmt.Sprint(err, err2, show(m, err3), err4, err5, err6, err7, show(m3, err8))
 	}},
 	{"newfrom-source", func(c *ucfg.Config, o []ucfg.Option) string {
 		d, err := ucfg.NewFrom(struct {
@@ -202,7 +210,13 @@ type Case struct {
 }
 
 // option variants on top of the options the config was built with
-var variantNames = []string{"base", "EnableNumKeys", "MaxIdx(0)", "EscapePath"}
+var variantNames = []string{"base", "EnableNumKeys", "MaxIdx(0)", "EscapePath", "FieldReplaceValues(l)", "FieldReplaceValues(l)+FieldAppendValues(k)"}
+
+// Option values that are created once and shared by all readers (and by all cases of the process)
+var (
+	fieldOptA = ucfg.FieldReplaceValues("l")
+	fieldOptB = ucfg.FieldAppendValues("k", "m.q.l")
+)
 
 func variant(base []ucfg.Option, v int) []ucfg.Option {
 	o := append([]ucfg.Option(nil), base...)
@@ -213,6 +227,10 @@ func variant(base []ucfg.Option, v int) []ucfg.Option {
 		o = append(o, ucfg.MaxIdx(0))
 	case 3:
 		o = append(o, ucfg.EscapePath())
+	case 4:
+		o = append(o, fieldOptA)
+	case 5:
+		o = append(o, fieldOptA, fieldOptB)
 	}
 	return o
 }
@@ -260,7 +278,7 @@ func genCase(t *rapid.T) Case {
 	for i := 0; i < 7; i++ {
 		c.Leaves = append(c.Leaves, rapid.IntRange(0, len(leaves)-1).Draw(t, "leaf"))
 	}
-	c.VOrder = rapid.Permutation([]int{0, 1, 2, 3}).Draw(t, "vorder")
+	c.VOrder = rapid.Permutation([]int{0, 1, 2, 3, 4, 5}).Draw(t, "vorder")
 	c.One = rapid.SampledFrom([]string{"", "+"}).Draw(t, "sign") + rapid.SampledFrom([]string{"", "0", "0x", "0X", "0b", "0B", "0o", "0O"}).Draw(t, "base") +
 		strings.Repeat("0", rapid.IntRange(0, 12).Draw(t, "zeros")) + "1"
 	return c
@@ -293,11 +311,17 @@ func runCase(cs Case, r *runlog.R) error {
 		"l": []interface{}{leaf(5), leaf(6)},
 		"e": map[string]interface{}{},
 		"m": map[string]interface{}{"p": "${o}", "q": map[string]interface{}{"l": []int{1, 2}}},
-		"k": []interface{}{"k0", "k1", "k2"},
+		"k": []interface{}{"k0", "k1", "k2", "k3", "k4", "k5"},
 	}
 	c, err := ucfg.NewFrom(tree, opts...)
 	if err != nil {
 		return fmt.Errorf("NewFrom failed: %v", err)
+	}
+	// the list k had elements removed: its storage has room behind the last element
+	for i := 0; i < 3; i++ {
+		if _, err := c.Remove("k", 3, opts...); err != nil {
+			return fmt.Errorf("Remove failed: %v", err)
+		}
 	}
 	dynamic := false
 	for i := 0; i < 7; i++ {
@@ -327,8 +351,9 @@ func runCase(cs Case, r *runlog.R) error {
 	for _, v := range vorder {
 		vo := variant(opts, v)
 		for i, op := range ops {
-			if v != 0 && i != 0 && i != 1 && i < len(readOps) {
-				continue // the other variants run the two Unpack operations and the named fields
+			if v != 0 && i != 0 && i != 1 && i < len(readOps) && !(v >= 4 && readOps[i].name == "merge-source") {
+				continue // the other variants run the two Unpack operations and the named fields (the variants with
+				// field options also the use as merge source)
 			}
 			rd := reader{op: i, v: v, opts: vo}
 			rd.alone = op.f(c, vo)
